@@ -43,6 +43,9 @@ fn main() {
             "--replay" => replay = Some(val()),
             "--scale" => scale = val().parse().unwrap_or_else(|_| usage()),
             "--scenario" => only = Some(val()),
+            "--single" => {
+                i += 2;
+            }
             _ => usage(),
         }
         i += 1;
@@ -55,12 +58,46 @@ fn main() {
         eprintln!("HARNESS-ERROR: unknown or unclaimed property {}", id);
         std::process::exit(2)
     };
+    // ---- supervision of checks whose code under test may abort the process
+    let may_abort = def.batches.iter().any(|b| b.scenario.may_abort());
+    if let Some(pos) = args.iter().position(|a| a == "--single") {
+        let sc = args[pos + 1].clone();
+        let idx: u64 = args[pos + 2].parse().unwrap();
+        limit_memory();
+        std::process::exit(run_single(&def, &sc, idx, seed));
+    }
+    if may_abort && std::env::var("VERIF_CHILD").is_err() && replay.is_none() {
+        std::process::exit(supervise(&def, &args, seed, &root));
+    }
+    if may_abort {
+        limit_memory();
+    }
     let code = if let Some(f) = replay {
         if !entropy_shim_active() {
             eprintln!("HARNESS-ERROR: entropy shim not active (run through /verif/check)");
             std::process::exit(2);
         }
-        replay_file(&def, &f, &root)
+        let txt = std::fs::read_to_string(&f).unwrap_or_default();
+        if txt.contains("\"mode\": \"abort\"") {
+            let v: serde_json::Value = serde_json::from_str(&txt).expect("replay json");
+            let exe = std::env::current_exe().expect("exe");
+            let st = std::process::Command::new(&exe)
+                .arg(def.prop)
+                .args(["--seed", &v["seed"].as_u64().unwrap().to_string(), "--single", v["scenario"].as_str().unwrap(), &v["run_index"].as_u64().unwrap().to_string()])
+                .env("VERIF_CHILD", "1")
+                .status()
+                .expect("spawn single");
+            if matches!(st.code(), Some(0..=2)) {
+                println!("replay did not abort");
+                2
+            } else {
+                println!("replayed: process killed again ({:?})", st);
+                println!("VIOLATION property={} replay={}", def.prop, f);
+                1
+            }
+        } else {
+            replay_file(&def, &f, &root)
+        }
     } else {
         let opts = Opts {
             wall_budget_s: if tier == "thorough" { 3000.0 } else { 600.0 },
@@ -75,4 +112,76 @@ fn main() {
         run_check(&def, &opts)
     };
     std::process::exit(code)
+}
+
+
+fn limit_memory() {
+    // giant allocations from garbage lengths must fail fast (abort) instead of thrashing
+    let lim = libc::rlimit { rlim_cur: 12 << 30, rlim_max: 12 << 30 };
+    unsafe {
+        libc::setrlimit(libc::RLIMIT_AS, &lim);
+    }
+}
+
+/// Parent side: run the check in a child; if the child is killed (abort, stack overflow,
+/// out of memory) find the run that did it from the per-worker breadcrumbs and report it.
+fn supervise(def: &CheckDef, args: &[String], seed: u64, root: &str) -> i32 {
+    use std::os::unix::process::ExitStatusExt;
+    let out = std::env::var("VERIF_OUT").unwrap_or_else(|_| root.to_string());
+    let crumbs = format!("/dev/shm/verif-crumbs-{}", std::process::id());
+    let _ = std::fs::create_dir_all(&crumbs);
+    let exe = std::env::current_exe().expect("exe");
+    let st = std::process::Command::new(&exe).args(&args[1..]).env("VERIF_CHILD", "1").env("VERIF_BREADCRUMBS", &crumbs).status().expect("spawn child");
+    let code = match st.code() {
+        Some(c @ 0..=2) => {
+            let _ = std::fs::remove_dir_all(&crumbs);
+            return c;
+        }
+        other => other,
+    };
+    let how = match (code, st.signal()) {
+        (_, Some(s)) => format!("signal {s}"),
+        (Some(c), _) => format!("exit code {c}"),
+        _ => "unknown".into(),
+    };
+    println!("child process died ({how}); attributing it to a run from the breadcrumbs");
+    let mut cands: Vec<(String, u64)> = vec![];
+    if let Ok(rd) = std::fs::read_dir(&crumbs) {
+        for e in rd.flatten() {
+            if let Ok(s) = std::fs::read_to_string(e.path()) {
+                let mut it = s.split_whitespace();
+                if let (Some(a), Some(b)) = (it.next(), it.next()) {
+                    if let Ok(i) = b.parse() {
+                        cands.push((a.to_string(), i));
+                    }
+                }
+            }
+        }
+    }
+    let _ = std::fs::remove_dir_all(&crumbs);
+    cands.sort();
+    cands.dedup();
+    let mut reported = false;
+    for (sc, idx) in cands {
+        let st = std::process::Command::new(&exe).arg(def.prop).args(["--seed", &seed.to_string(), "--single", &sc, &idx.to_string()]).env("VERIF_CHILD", "1").status().expect("spawn single");
+        if !matches!(st.code(), Some(0..=2)) {
+            let sig = format!("{}|abort|{}|{}", def.prop, sc, st.signal().map(|s| format!("signal {s}")).unwrap_or_else(|| "died".into()));
+            let dir = format!("{}/replays", out);
+            let _ = std::fs::create_dir_all(&dir);
+            let path = format!("{}/{}-abort-{}-{}.json", dir, def.prop, sc, idx);
+            let v = serde_json::json!({"property": def.prop, "scenario": sc, "seed": seed, "run_index": idx, "mode": "abort", "signature": sig,
+                "message": format!("the process running scenario {sc} run {idx} was killed ({how}): abort / stack overflow / allocation failure in the code under test")});
+            std::fs::write(&path, serde_json::to_string_pretty(&v).unwrap()).expect("write replay");
+            println!("violation: process abort in scenario {sc} run {idx} ({how})");
+            println!("signature: {sig}");
+            println!("VIOLATION property={} replay={}", def.prop, path);
+            reported = true;
+        }
+    }
+    if reported {
+        1
+    } else {
+        eprintln!("HARNESS-ERROR: child died ({how}) but no single run reproduces it");
+        2
+    }
 }
